@@ -217,12 +217,17 @@ func (c *Cluster) goFlushStore(sCtx signal.Context) {
 			Encoder:     c.Codec,
 		}
 		flush.FlushSync(sCtx, c.CopyState())
-		c.OnChange(func(_ context.Context, change Change) {
+		c.OnChange(func(context.Context, Change) {
 			select {
 			case <-sCtx.Done():
 				return
 			default:
-				flush.Flush(sCtx, change.State)
+				// Flush the current state rather than the state carried by the
+				// change: notifications are delivered asynchronously, so a change
+				// emitted before this handler was bound (e.g. SetHost during
+				// bootstrap, before the cluster key is set) can arrive late and
+				// would otherwise overwrite the persisted state with a stale one.
+				flush.Flush(sCtx, c.CopyState())
 			}
 		})
 		sCtx.Go(func(ctx context.Context) error {
